@@ -94,13 +94,25 @@ func c03Exec(t map[string]any, idx int) map[string]any {
 		ev["calls"] = calls
 		return ev
 	}
-	if (kind == "iso" || kind == "squashfs") && work == "exactfit" {
+	if (kind == "iso" || kind == "squashfs") && (work == "exactfit" || work == "exactdirs") {
 		// first a roomy build to learn what the image needs, then a range of exactly that size
 		entries := []fsx.Entry{{Path: "a.bin", Data: randomBytes(1, int(sector))}, {Path: "dir", Dir: true}, {Path: "dir/b.bin", Data: randomBytes(2, int(3*sector))}, {Path: "zz_last.bin", Data: randomBytes(3, int(2*sector))}}
 		if str(t, "size") == "odd" {
 			entries = append(entries, fsx.Entry{Path: "zzz_tail.bin", Data: randomBytes(4, int(sector)+1)})
 		}
 		opt := fsx.Opt{Size: 16 << 20, Sector: sector, IsoOpts: &iso9660.FinalizeOptions{RockRidge: true}, SquashOpts: &squashfs.FinalizeOptions{}}
+		if work == "exactdirs" {
+			// many directories with long names: path tables (Joliet's take 8+2n bytes per record where the
+			// primary ones take 8+n) and directory tables cross block boundaries
+			for i := 0; i < 70; i++ {
+				dn := fmt.Sprintf("directory-number-%03d", i)
+				entries = append(entries, fsx.Entry{Path: dn, Dir: true})
+				if i%9 == 0 {
+					entries = append(entries, fsx.Entry{Path: dn + "/f.bin", Data: randomBytes(int64(100+i), 100+i)})
+				}
+			}
+			opt.IsoOpts = &iso9660.FinalizeOptions{RockRidge: true, Joliet: true}
+		}
 		v0, err := fsx.BuildImage(kind, entries, opt)
 		if err != nil {
 			ev["res"], ev["detail"] = "setup", "roomy build: "+err.Error()
@@ -449,7 +461,7 @@ func C03(c *core.Ctx) {
 		add(ev)
 		c.Distinct("fs|" + js(tuples[i]))
 		outcomes[str(tuples[i], "work")+":"+str(ev, "res")]++
-		if str(tuples[i], "work") == "fill" || str(tuples[i], "work") == "fillodd" || str(tuples[i], "work") == "oversize" || str(tuples[i], "work") == "exactfit" {
+		if str(tuples[i], "work") == "fill" || str(tuples[i], "work") == "fillodd" || str(tuples[i], "work") == "oversize" || str(tuples[i], "work") == "exactfit" || str(tuples[i], "work") == "exactdirs" {
 			fills++
 			if ev["full"] == true {
 				full++
